@@ -74,7 +74,7 @@ TRUSTED = core.COMMON_TRUSTED + [
 
 
 def run(ctx):
-    proof = core.prove(MODULES, leanchecker=ctx.thorough)
+    proof = core.prove(MODULES, extra_targets=["AdaptiveProofs.Examples.L1D"], leanchecker=ctx.thorough)
     failures = []
     corr = core.Corr("Learner1D~L1D.lean")
     cases = gen_cases(ctx.rng, ctx.n(160, 3000), ctx.n(50, 110))
